@@ -89,12 +89,12 @@ def synthetic(pair, r, res):
     p = pair
     pub = bytes.fromhex(p.impl.cmd("prim pub main").split(" ")[1])
     sec = bytes.fromhex(p.impl.cmd("prim secret main").split(" ")[1])
-    for case in range(24):
-        blocks = [bytes([97 + i]) * r.choice([0, 1, 5]) for i in range(r.choice([1, 2, 3, 5]))]
+    for case in range(48):
+        blocks = [bytes([97 + i]) * r.choice([0, 1, 5]) for i in range(r.choice([1, 2, 3, 5]) if case % 3 else r.choice([3, 4, 6]))]
         ref = jsfmt.RefTree(blocks)
         L = len(blocks)
         # flushed prefix of k blocks lives in header/tree/bitfield/data; the rest arrives as entries
-        k = r.randrange(0, L + 1)
+        k = r.randrange(0, L + 1) if case % 3 else r.randrange(0, L - 1)
         slot = r.choice([0, 1]); bit = r.choice([0, 1])
         def sig_for(n):
             return bytes.fromhex(p.impl.cmd("prim sign main " + jsfmt.signable(jsfmt.tree_hash(ref.roots(n)), n).hex()).split(" ")[1])
@@ -128,10 +128,15 @@ def synthetic(pair, r, res):
             c = r.randrange(L)
             ents.append((jsfmt.enc_entry(bitfield=(1, c, 1)), 0)); cleared.add(c)
         npart = r.choice([0, 0, 1, 2])
-        mid_partial = r.random() < 0.3 and len(ents) >= 2
+        mid_partial = (case % 3 == 0 or r.random() < 0.3) and len(ents) >= 2
         flags = [0] * len(ents)
         if mid_partial:
-            flags[0] = 1      # a finished atomic batch: partial entries followed by a non-partial one
+            # finished atomic batches (as the JavaScript implementation writes with append(batch, atomic)): one or more
+            # partial entries followed by the non-partial entry that completes the batch, anywhere in the log
+            j0 = r.randrange(0, len(ents) - 1)
+            for j in range(j0, r.randrange(j0 + 1, len(ents))):
+                flags[j] = 1
+            res.count("synthetic:completed-atomic-batch")
         for _ in range(npart):
             ents.append((jsfmt.enc_entry(bitfield=(1, 0, 1)), 1)); flags.append(1)
         body = b"".join(jsfmt.frame(cur, flags[j], e[0]) for j, e in enumerate(ents))
@@ -168,6 +173,13 @@ def synthetic(pair, r, res):
                 b, _ = p.do("get W %d" % i)
                 if b != spec.exp_get(i):
                     raise Violation("synthetic:state", "get(%d)=%s, expected %s" % (i, b[:60], spec.exp_get(i)[:60]), case)
+            # what open itself wrote (its repairing truncate) must leave files that still say what the API says,
+            # and a second open WITHOUT any write in between must reproduce the state
+            reader_check(p, "W", "D", "after opening synthetic JS-layout storage (case %d)" % case)
+            p.raw("drop W"); iar, _ = p.do("open W D")
+            ibr, _ = p.do("info W")
+            if iar != "ok" or ibr != spec.exp_info():
+                raise Violation("synthetic:reopen", "second open without any write in between: open=%s info=%s, expected %s" % (iar, ibr, spec.exp_info()), case)
             # the core must keep working on it
             ia2, _ = p.do("append W 7a")
             if ia2 != "ok %d %d" % (L + 1, spec.byte_length + 1):
